@@ -247,6 +247,15 @@ K("C08", "K08-dense-rank-select", "c08_dense_rank_select_word", crate="tantivy-c
 K("C08", "K08-dense-bits", "c08_dense_bit_accessors", crate="tantivy-columnar", timeout=60, title="set_bit_at / get_bit_at", functions=["dense::set_bit_at", "get_bit_at"], bounds="all words", checks="full")
 K("C08", "K08-sparse-block", "c08_sparse_block_rank_select", crate="tantivy-columnar", timeout=300,
   title="sparse optional-index block: contains / rank / rank_if_exists / select vs definition", functions=["SparseBlock::{binary_search,contains,rank,rank_if_exists,select}"], bounds="<= 4 sorted u16; unwind 6")
+K("C08", "K08-compact-value", "c08_compact_space_value_roundtrip", crate="tantivy-columnar", timeout=1200,
+  title="u128 / IP codec: value -> compact -> value is the identity on covered values, lands in the range's own compact interval, is strictly monotone; an uncovered value reports its insertion position",
+  functions=["CompactSpace::{u128_to_compact,compact_to_u128,get_range_mapping}", "RangeMapping::{range_length,compact_end}"],
+  bounds="3 covered ranges written down under the representation invariant (sorted, disjoint, compact_start(0) = 1, contiguous compact intervals), range lengths < 2^24, values < 2^127; all u128 probes; unwind 5",
+  assumes=["the representation invariant of CompactSpace is the one `deserialize` / `get_compact_space` establish (compact_start chain starting at 1)"])
+K("C08", "K08-compact-compact", "c08_compact_space_compact_roundtrip", crate="tantivy-columnar", timeout=600,
+  title="u128 / IP codec: compact -> value -> compact is the identity on 1..=amplitude",
+  functions=["CompactSpace::{compact_to_u128,u128_to_compact,amplitude_compact_space}"],
+  bounds="3 covered ranges (as K08-compact-value); every compact id in 1..=amplitude; unwind 5")
 K("C08", "K08-i64-order", "c03_i64_to_u64_order_roundtrip", crate="tantivy-common", timeout=60, title="monotonic mapping i64 <-> u64", functions=["common::i64_to_u64"], bounds="all", checks="full")
 K("C08", "K08-f64-order", "c03_f64_to_u64_order_roundtrip", crate="tantivy-common", timeout=60, title="monotonic mapping f64 <-> u64", functions=["common::f64_to_u64"], bounds="all non-NaN", checks="full")
 
